@@ -17,7 +17,7 @@ from .platgen import Plat
 
 T = s4u.T
 DRIVER = "s4u_fault"
-EXT_VERSION = "fault-ext-v1"     # must match drivers/s4u_ext_fault.hpp: a stale binary is a harness error, not a verdict
+EXT_VERSION = "fault-ext-v3"     # must match drivers/s4u_ext_fault.hpp: a stale binary is a harness error, not a verdict
 EPS = 2.0 ** -20                 # "just before / just after" a date
 TOL = 1e-9                       # dates closer than that are a tie (precision/timing)
 INJ_HOST = "hi"                  # host of the injector: never fails, takes part in nothing else
@@ -178,6 +178,16 @@ def programs(draw, tier="quick"):
     return {"cfg": cfg, "platform": plat, "objects": objects, "actors": actors}
 
 
+@st.composite
+def programs_with_pairs(draw):
+    """thorough tier: a program plus the specification of 2-6 pairs (resolved against the logs at check time)"""
+    case = draw(programs("thorough"))
+    n = draw(st.integers(2, 6))
+    case["pairs"] = [{"first": draw(st.integers(0, 10000)), "on": draw(st.booleans()), "res": draw(st.integers(0, 50)),
+                      "date": draw(st.integers(0, 50)), "shift": draw(st.sampled_from([0, 0, 1, -1]))} for _ in range(n)]
+    return case
+
+
 # ------------------------------------------------------------------------------------------------ fault schedules
 def resources(case):
     """[(kind, name, profile_capable)]: every host but the injector's, every link (a split-duplex link as a whole and each direction)"""
@@ -239,17 +249,49 @@ def enumerate_faults(case, ref_log, cap=64):
     return out
 
 
+def make_pair(case, f1, log1, spec):
+    """the single fault f1 followed by a second switch chosen by `spec` among the event dates of the run under f1 alone: the same
+    resource comes back on, or another resource fails.  None when no such pair exists."""
+    dates = [d for d in event_dates(log1) if d >= f1["date"]]
+    if not dates:
+        return None
+    d2 = dates[spec["date"] % len(dates)] + spec["shift"] * EPS
+    if d2 < f1["date"]:
+        d2 = f1["date"]
+    if spec["on"]:
+        if d2 == f1["date"]:
+            d2 += EPS
+        f2 = dict(f1, date=d2, on=True)
+    else:
+        others = [r for r in resources(case) if r[1] != f1["name"] and not (f1["name"].startswith(r[1] + "_") or r[1].startswith(f1["name"] + "_"))]
+        if not others:
+            return None
+        kind, name, prof = others[spec["res"] % len(others)]
+        f2 = {"res": kind, "name": name, "date": d2, "how": "actor", "on": False}
+        if f1["how"] == "profile" and prof and d2 > f1["date"]:
+            f2["how"] = "profile"
+    if f1["how"] == "actor":
+        f2["how"] = "actor"         # one injector, operations in date order
+    elif f2["how"] == "actor":
+        return [dict(f1), f2] if True else None
+    return [dict(f1), f2]
+
+
 def faulty(case, faults, sample=True):
     """the scenario of `case` under the fault schedule `faults` (dates non-decreasing): "actor" faults are the operations of ONE
     injector actor on INJ_HOST, "profile" faults become state profiles of their resource"""
     import copy
     sc = copy.deepcopy(case)
+    sd = {l["name"] for l in case["platform"].get("links", []) if l.get("policy") == "SPLITDUPLEX"}
     inj = []
     profs = {}
     for f in faults:
         if f["how"] == "actor":
             inj.append(["sleep_until", f["date"]])
-            inj.append(["turn_on" if f["on"] else "turn_off", f["res"], f["name"]])
+            if f["res"] == "link" and f["name"] in sd:
+                inj.append(["turn_sd", f["name"], bool(f["on"])])
+            else:
+                inj.append(["turn_on" if f["on"] else "turn_off", f["res"], f["name"]])
         else:
             profs.setdefault((f["res"], f["name"]), []).append([f["date"], 1 if f["on"] else 0])
     for (kind, name), pts in profs.items():
@@ -299,7 +341,11 @@ class Replay:
     def __init__(self, case, log, ref=None, faults=None):
         self.case = case
         self.log = log
-        self.ref = ref
+        # ref: the Replay of the reference run of the (last) switch, or the list of the references of every switch of the schedule
+        # (refs[k] = the run under the first k switches only)
+        self.refs = ref if isinstance(ref, list) else [ref]
+        self.ref = self.refs[0]
+        self.nswitch = 0
         self.faults = faults or []
         self.plat = Plat(case["platform"])
         self.xt = "network/crosstraffic:1" in case.get("cfg", [])
@@ -320,7 +366,11 @@ class Replay:
         self.actor_end = {}          # actor -> (t, n)
         self.last_n = {}             # actor -> n of its last req/ret/body_end record
         self.desync = None
-        self.inj_pending = set()
+        self.switches = []           # (kind, name, on, date) observed
+        self.expect_adv = None
+        self.overshoot = None
+        self.overshoot_reported = False
+        self.deferred = None         # requests printed after the injector's, served after the switch
 
     # ---- helpers
     def bad(self, sig, msg):
@@ -345,12 +395,13 @@ class Replay:
         return {(kind, name)}
 
     def ref_end(self, act):
-        """date at which the activity ended in the reference run (same program, without the last fault), None if it did not"""
-        if self.ref is None:
+        """date at which the activity ended in the reference run (same program, without the fault that hit it), None if it did not"""
+        ref = getattr(act, "ref", None) or self.ref
+        if ref is None:
             return None
         best = None
         for k in act.keys:
-            e = self.ref.ends.get(k)
+            e = ref.ends.get(k)
             if e is not None and (best is None or e < best):
                 best = e
         return best
@@ -410,6 +461,18 @@ class Replay:
         if l["a"] in self.actors:
             self.actors[l["a"]]["alive"] = False
 
+    def on_adv(self, l):
+        if self.expect_adv is not None:
+            if T(l["t"]) != self.expect_adv and not self.overshoot:
+                self.overshoot = (self.expect_adv, T(l["t"]))      # reported only when something observable happens late because of it
+            self.expect_adv = None
+
+    def late_by_overshoot(self, what):
+        if not self.overshoot_reported:
+            self.overshoot_reported = True
+            self.bad("state-profile-event-does-not-stop-the-clock", "a state profile turned a resource off at %r but the clock went on to %r in the same step, and the "
+                     "consequences of the failure take place at that later date: %s" % (self.overshoot[0], self.overshoot[1], what))
+
     def on_deadlock(self, l):
         self.deadlock = l
 
@@ -440,6 +503,7 @@ class Replay:
             act.failed_at = t
             act.failed_n = n
             act.why = why
+            act.ref = self.ref
         act.state = "failed"
         self.note_end(act, t)
         # every live actor currently blocked on it must be told now
@@ -482,15 +546,29 @@ class Replay:
         name, idx, op, t, n = l["a"], l["i"], l["op"], T(l["t"]), l["n"]
         self.last_n[name] = n
         if name == "inj":
-            # the kernel serves the requests in the order of the req lines: the switch takes effect HERE, not where the onoff record
-            # is printed (the actors that run later in the same scheduling round print their next request in between)
-            if op[0] in ("turn_off", "turn_on"):
-                self.inj_pending |= self.resolve(op[1], op[2])
-                self.switch(op[1], op[2], op[0] == "turn_on", t, n)
+                # the kernel serves the requests of a scheduling round after all its actors ran, in the order of the req lines: the
+            # requests printed between this line and the onoff record are served AFTER the switch, while the returns printed in
+            # between were decided before it
+            if op[0] in ("turn_off", "turn_on", "turn_sd"):
+                self.deferred = []
             return
         a = self.actors[name]
         a["cur"] = (idx, op)
         a["t_req"] = t
+        if self.deferred is not None:
+            self.deferred.append(l)
+            return
+        self.serve(l)
+
+    def flush(self):
+        q, self.deferred = self.deferred, None
+        for l in q or []:
+            self.serve(l)
+
+    def serve(self, l):
+        """the kernel serves the request of line l"""
+        name, idx, op, t, n = l["a"], l["i"], l["op"], T(l["t"]), l["n"]
+        a = self.actors[name]
         if a["dead_at"] is not None:
             return                  # printed before the kernel served the injector's request; never served
         o = op[0]
@@ -532,6 +610,8 @@ class Replay:
         name, idx, t, n = l["a"], l["i"], T(l["t"]), l["n"]
         self.last_n[name] = n
         if name == "inj":
+            if self.deferred is not None:
+                self.flush()        # the switch had no effect (resource already in that state)
             return
         a = self.actors[name]
         if a["cur"] is None or a["cur"][0] != idx:
@@ -554,15 +634,22 @@ class Replay:
                 wrong = [x for x in acts if x.failed_at is not None]
                 if wrong:
                     self.bad("wrong-exception-type", "%s got %s at %r for %r" % (what, exc, t, wrong[0]))
+                elif acts and all(x.state == "done" and (x.uses & self.off) for x in acts):
+                    self.bad("failure-exception-after-completion:" + acts[0].kind, "%s got %s at %r although %r had completed at %r, before %s was turned off"
+                             % (what, exc, t, acts[0], acts[0].ended_at, sorted(acts[0].uses & self.off)))
                 else:
                     self.bad("unjustified-failure-exception:" + exc, "%s got %s at %r although none of %r uses a failed resource (off: %s)"
                              % (what, exc, t, acts, sorted(self.off)))
                 return
             want = max(a["t_req"], min(x.failed_at for x in just))
-            if t != want:
+            if t > want and self.overshoot:
+                self.late_by_overshoot("%s got %s at %r instead of %r" % (what, exc, t, want))
+            elif t != want:
                 kind = "late" if t > want else "early"
                 x = just[0]
                 detail = ":detached-send" if (x.kind == "comm" and x.send and x.send[2]) else ""
+                if x.kind == "exec" and "cpu/optim:TI" in self.case.get("cfg", []):
+                    detail = ":cpu-TI"
                 self.bad("failure-reported-%s:%s%s" % (kind, x.kind, detail), "%s got %s at %r, expected at %r: %r failed at %r (%s)"
                          % (what, exc, t, want, x, x.failed_at, x.why))
             if op[0] != "wait_any":
@@ -590,22 +677,25 @@ class Replay:
             else:
                 x.state = "done"
                 self.note_end(x, t)
-        if o == "join" and ob is not None and t != ob["date"]:
+        if o == "join" and ob is not None and t > ob["date"] and self.overshoot:
+            self.late_by_overshoot("%s returned at %r" % (what, t))
+        elif o == "join" and ob is not None and t != ob["date"]:
             self.bad("join-returns-late", "%s returned at %r, its target died at %r" % (what, t, ob["date"]))
 
     def on_onoff(self, l):
         kind, name, on, t, n = l["res"], l["name"], l["on"], T(l["t"]), l["n"]
-        rs = self.resolve(kind, name)
-        if rs <= self.inj_pending:          # the record of a switch requested by the injector: already applied
-            self.inj_pending -= rs
-            for a in self.actors.values():
-                if a["dead_at"] is not None and a["host"] == name and kind == "host" and a["dead_n"] is not None and a["dead_n"] < n:
-                    a["dead_n"] = n         # what a victim printed before the kernel served the request is not "later"
-            return
         self.switch(kind, name, on, t, n)
+        if self.deferred is not None:
+            self.flush()
+        else:
+            self.expect_adv = t     # a state profile event: the clock must stop at its date
 
     def switch(self, kind, name, on, t, n):
         rs = self.resolve(kind, name)
+        if not self.switches or self.switches[-1][3] != t or self.switches[-1][4] != n:
+            self.ref = self.refs[min(self.nswitch, len(self.refs) - 1)]
+            self.nswitch += 1
+        self.switches.append((kind, name, on, t, n))
         if on:
             self.off -= rs
             return
@@ -627,8 +717,8 @@ class Replay:
         hit = 0
         for act in list(self.acts.values()):
             if act.state == "running" and act.failed_at is None and (act.uses & new):
-                if self.ended_before(act, t):
-                    act.state = "done"
+                if (act.ended_at is not None and act.ended_at <= t) or self.ended_before(act, t):
+                    act.state = "done"      # it completed before the switch (seen in this very log: act_end record, remaining == 0 sample)
                     continue
                 hit += 1
                 if act.kind == "comm":
@@ -695,7 +785,9 @@ class Replay:
                 if not failed:
                     self.bad("on_exit-not-failed", "%s died with its host at %r but on_exit saw failed=false" % (an, d))
             dates = [t for _, t, _ in exits] + [end[0]]
-            if any(t != d for t in dates):
+            if any(t != d for t in dates) and self.overshoot and all(t >= d for t in dates):
+                self.late_by_overshoot("%s (host %s) terminated at %r" % (an, a["host"], sorted(set(dates))))
+            elif any(t != d for t in dates):
                 self.bad("kill-at-wrong-date" + how, "%s: host %s was turned off at %r, on_exit / termination at %r" % (an, a["host"], d, sorted(set(dates))))
         # a survivor must get an exception, not be killed
         killed = set()
@@ -754,5 +846,10 @@ def check_one(case, faults, ref):
     rp = Replay(case, log, ref, faults).run()
     if rp.desync:
         return rp, [("harness-desync", rp.desync)], log
+    for f in faults:
+        names = {x[1] for x in rp.resolve(f["res"], f["name"])}
+        seen = [s for s in rp.switches if s[0] == f["res"] and s[1] in names and s[2] == f["on"]]
+        if not seen:
+            return rp, [("harness-fault-not-injected", "the switch %s was not observed in the log" % describe([f]))], log
     pre = "under the schedule [%s]: " % describe(faults)
     return rp, [(s, pre + m) for s, m in rp.viol], log
